@@ -104,7 +104,7 @@ pub fn gen_lookup_instance(r: &mut Rng, log_n: usize) -> Instance {
         }
     }
     let spec = LookupSpec { looking, filters, table, freq };
-    let mut def = Def { cols, pis, constraints, degree: r.range(2, 3), lookups: vec![spec] };
+    let mut def = Def { cols, pis, constraints, degree: r.range(2, 3), lookups: vec![spec], ctl: false };
     // frequencies: count on the first occurrence of each table value
     fill_frequencies(&mut def, &mut rows);
     let pv: Vec<u64> = (0..pis).map(|_| r.felt_biased()).collect();
@@ -137,6 +137,14 @@ fn fill_frequencies(def: &mut Def, rows: &mut Vec<Vec<u64>>) {
 }
 
 pub fn gen(rng: &mut Rng, tier: Tier) -> Value {
+    {
+        // a third of the runs: a multi-table system with cross-table lookups
+        let mut rk = rng.sub("c10ctl");
+        if rk.chance(1, 3) {
+            let mut rs = rng.sub("schedule");
+            return json!({"ctl": crate::ctl::gen_case(&mut rk, &mut rs)});
+        }
+    }
     let mut r = rng.sub("c10");
     let log_n = if tier == Tier::Quick { r.range(2, 6) } else { r.range(1, 9) };
     let inst = gen_lookup_instance(&mut r, log_n);
@@ -276,11 +284,17 @@ fn exec_h<const COLS: usize, const PIS: usize>(case: &Case, rep: &mut Report) {
 }
 
 pub fn exec(case: &Value, rep: &mut Report) {
+    if let Some(c) = case.get("ctl") {
+        return crate::ctl::exec(c, rep);
+    }
     let case: Case = serde_json::from_value(case.clone()).expect("malformed C10 case");
     with_stark!(case.inst.def, exec_h, &case, rep)
 }
 
 pub fn shrink(case: &Value) -> Vec<Value> {
+    if case.get("ctl").is_some() {
+        return vec![];
+    }
     let c: Case = serde_json::from_value(case.clone()).unwrap();
     let mut out = Vec::new();
     if c.sched.workers > 1 {
